@@ -1,5 +1,6 @@
 import CedarVerif.Lemmas.SchemaSyntax
 import CedarVerif.Lemmas.SchemaDecl
+import CedarVerif.Lemmas.SchemaDecl2
 /-
 C09 — the JSON and the Cedar schema syntaxes denote the same schema.
 
@@ -24,10 +25,29 @@ What is proved here (about the model `Cedar/SchemaSyntax.lean`, tied to the code
                             entity-or-common reference (shape and tags as in `type_roundtrip_json`, `memberOf` unchanged);
   * `decl_parser_accepts_more`  the forms only the Cedar syntax has (several names, no `=`, a bare path after `in`, `{}`) parse to the
                             expected data (examples).
-NOT modelled (covered only by the four-way differential run of harness/src/c09.rs): the other declarations (enum entities, action
-declarations with `in` / `appliesTo` / context, common-type and namespace declarations), annotations, the lexer and string escapes, the
-collision / unconvertible-shape checks of fmt.rs, JSON (de)serialisation, and everything `ValidatorSchema` construction does after
-name resolution (common-type inlining, cycle detection, hierarchy closure, action entities).
+  * DECLARATION LEVEL, the other declarations and whole fragments (`Cedar/SchemaDecl2.lean`, lemmas `Lemmas/SchemaDecl2.lean`; tied to
+    the code by the `sty print-frag | parse-frag` differential run on whole schemas):
+    `enum_decl_roundtrip`     `entity N enum ["a", …];` reads back as the same enum entry (non-empty list: `enum_nonempty_needed`);
+    `common_decl_roundtrip`   `type N = T;` reads back as N with the entity-or-common form of T (N not a reserved common-type name:
+                              `common_reserved_needed`);
+    `action_decl_roundtrip`   a JSON `actions` entry → `action "N" in [T::"id", …] appliesTo { principal: [..], resource: [..],
+                              context: T };` → JSON = `normAction` of the entry: a parent without type gets `Action`, `memberOf: []`
+                              becomes absent, an absent OR HALF-EMPTY `appliesTo` becomes the empty `ApplySpec` (fmt.rs prints nothing:
+                              `appliesTo_half_empty_lost`, the known finding), a record context keeps its shape with entity-or-common
+                              leaves, a context given by a name becomes a must-be-common reference; hypothesis `CtxOK` (the context is
+                              a record or a name) is needed: `ctxOK_needed`; `action_parser_accepts_more`: the forms only the Cedar
+                              syntax has (bare / several names, single parent, any order of principal/resource/context, trailing
+                              comma, `attributes {}`) and what to_json_schema.rs refuses (empty / missing / duplicate lists);
+    `fragment_roundtrip`      a WHOLE FRAGMENT (empty namespace + named namespaces, each with common types, standard and enum entity
+                              types, actions): parseFragment (printFragmentJ f) = some (normFragment f), with `normFragment` spelled out
+                              (type leaves entity-or-common, the action normal form above, an empty-namespace entry without declarations
+                              absent), under `WFFrag` (names the grammar's `Ident` accepts, no `__cedar`, `namespace_reserved_needed`)
+                              and `SortedFrag` (record attributes in BTreeMap order); non-vacuity: `demoFragment`.
+NOT modelled (covered only by the four-way differential run of harness/src/c09.rs): annotations, the lexer and string escapes, the
+`BTreeMap` collection of the parsed declarations (entries are returned in source order; duplicate declarations / namespaces, which
+`build_namespace_bindings` refuses, are not detected), action `attributes`, records with additional attributes, the collision /
+unconvertible-shape checks of fmt.rs, JSON (de)serialisation, and everything `ValidatorSchema` construction does after name
+resolution (common-type inlining, cycle detection, hierarchy closure, action entities).
 -/
 namespace Cedar.C09
 open Cedar.SchemaSyntax
@@ -248,5 +268,236 @@ theorem decl_parser_accepts_more :
     parseEntityDecl [.id "entity", .id "if", .other ";"] = none ∧
     parseEntityDecl [.id "entity", .id "__cedar", .other ";"] = none := by
   refine ⟨by rfl, by rfl, by rfl, by rfl, by rfl, by rfl⟩
+
+/-! ## declaration level: enum entities, actions, common types, namespaces, whole fragments (`Cedar/SchemaDecl2.lean`) -/
+
+/-- `entity N enum ["a", …];` reads back as the same enum entry -/
+theorem enum_decl_roundtrip (name : String) (cs : List String) (hn : validId name = true) (hr : name ≠ "__cedar") (hc : cs ≠ []) :
+    parseEntityAnyDecl (printEnumJ name cs) = some [(name, .enum cs)] := by
+  have h := parseEntityAny_enum name cs ((printEnumJ name cs).length + 1) [] hn hr hc
+  simp only [List.append_nil] at h
+  simp [parseEntityAnyDecl, h, EntDeclC.toJsonKinds]
+
+example : parseEntityAnyDecl (printEnumJ "enum" ["enum", "has space", ""]) = some [("enum", .enum ["enum", "has space", ""])] :=
+  enum_decl_roundtrip _ _ (by decide) (by decide) (by simp)
+
+/-- the non-emptiness hypothesis is needed (json_schema.rs has `NonEmpty` there: the JSON form cannot be empty either) -/
+theorem enum_nonempty_needed : parseEntityAnyDecl (printEnumJ "E" []) = none := by rfl
+
+/-- `type N = T;` reads back as the entity-or-common form of `T`, for names that are not reserved common-type names -/
+theorem common_decl_roundtrip (name : String) (t : TyJson) (hn : validId name = true) (hr : name ≠ "__cedar")
+    (hk : reservedCommonNames.contains name = false) (hw : WFJ t) (hs : SortedT t) :
+    parseCommonDecl (printCommonJ name t) = some (name, eocForm t) := by
+  have h := parseCommon_print name t hn hr hk hw ((printCommonJ name t).length + 1)
+    (by have := sizeC_le_length (toCedar t); simp only [printCommonJ, printTy_eq_printC, List.length_append, List.length_cons]; omega) []
+  simp only [List.append_nil] at h
+  simp [parseCommonDecl, h, normalize_eq_eocForm t hs]
+
+example : parseCommonDecl (printCommonJ "Ctx" (.record (.cons "ip" false (.ext "ipaddr") .nil))) =
+    some ("Ctx", .record (.cons "ip" false (.entityOrCommon ⟨["__cedar"], "ipaddr"⟩) .nil)) := by
+  have := common_decl_roundtrip "Ctx" (.record (.cons "ip" false (.ext "ipaddr") .nil)) (by decide) (by decide) (by decide)
+    (by simp [WFJ, WFAJ, QName.comps, cedarName] <;> decide) (by simp [SortedT, SortedA, keysJ])
+  simpa [eocForm, eocFormAttrs, cedarName] using this
+
+/-- the reserved-name hypothesis is needed: a JSON common type cannot be called `Long` either (`CommonTypeId`), and the parser refuses it -/
+theorem common_reserved_needed : parseCommonDecl (printCommonJ "Long" .bool) = none := by rfl
+
+/-- JSON `actions` entry → `action "N" in [..] appliesTo {..};` → JSON entries: the entry comes back as `normAction` of itself —
+parents get their type written out (`Action` when absent), `memberOf: []` becomes absent, an absent OR HALF-EMPTY `appliesTo`
+becomes the empty `ApplySpec` (principal/resource lists and context LOST), the context becomes its `normCtx` -/
+theorem action_decl_roundtrip (name : String) (a : ActionJ) (hw : WFAct a)
+    (hs : ∀ s, a.appliesTo = some s → SortedT s.context) :
+    parseActionDecl (printActionJ name a) = some [(name, normAction a)] := by
+  have h := parseAction_print name a hw ((printActionJ name a).length + 1) (by have := actFuel_le_length name a; omega) []
+  simp only [List.append_nil] at h
+  have hs' : ∀ s, a.appliesTo = some s → SortedT s.context ∧ CtxOK s.context :=
+    fun s h' => ⟨hs s h', (hw.2 s h').2.2.2⟩
+  simp [parseActionDecl, h, toJsonActions_toDecl name a hs']
+
+/-- an action with a bare and a qualified parent, two principal types, a record context with an optional field -/
+def demoAction : ActionJ :=
+  { memberOf := some [⟨none, "all"⟩, ⟨some ⟨["NS"], "Action"⟩, "adm in"⟩],
+    appliesTo := some ⟨[⟨[], "User"⟩, ⟨["NS"], "Svc"⟩], [⟨[], "Doc"⟩], .record (.cons "ip" false (.ext "ipaddr") (.cons "n" true .long .nil))⟩ }
+
+theorem demoAction_wf : WFAct demoAction ∧ (∀ s, demoAction.appliesTo = some s → SortedT s.context) := by
+  refine ⟨⟨?_, ?_⟩, ?_⟩
+  · intro l hl r hr q hq
+    simp only [demoAction, Option.some.injEq] at hl
+    subst hl
+    simp only [List.mem_cons, List.not_mem_nil, or_false] at hr
+    rcases hr with rfl | rfl
+    · simp at hq
+    · simp only [Option.some.injEq] at hq; subst hq; simp [QName.comps]; decide
+  · intro s hs
+    simp only [demoAction, Option.some.injEq] at hs
+    subst hs
+    refine ⟨?_, ?_, ?_, ?_⟩
+    · simp [QName.comps]; decide
+    · simp [QName.comps]; decide
+    · simp [WFJ, WFAJ]; decide
+    · intro e; simp
+  · intro s hs
+    simp only [demoAction, Option.some.injEq] at hs
+    subst hs
+    simp [SortedT, SortedA, keysJ]
+
+example : parseActionDecl (printActionJ "view doc" demoAction) = some [("view doc", normAction demoAction)] :=
+  action_decl_roundtrip _ _ demoAction_wf.1 demoAction_wf.2
+
+/-- what is printed: `action "view doc" in [Action::"all", NS::Action::"adm in"] appliesTo { principal: [User, NS::Svc], resource: [Doc],
+context: { ip?: __cedar::ipaddr, n: __cedar::Long } };` -/
+example : printActionJ "view doc" demoAction =
+    [.id "action", .str "view doc", .id "in", .other "[", .id "Action", .dcolon, .str "all", .comma, .id "NS", .dcolon, .id "Action",
+     .dcolon, .str "adm in", .other "]", .id "appliesTo", .lb, .id "principal", .colon, .other "[", .id "User", .comma, .id "NS",
+     .dcolon, .id "Svc", .other "]", .comma, .id "resource", .colon, .other "[", .id "Doc", .other "]", .comma, .id "context", .colon,
+     .lb, .id "ip", .q, .colon, .id "__cedar", .dcolon, .id "ipaddr", .comma, .id "n", .colon, .id "__cedar", .dcolon, .id "Long", .rb,
+     .rb, .other ";"] := by decide
+
+/-- HALF-EMPTY `appliesTo` (known finding C09-half-empty-appliesTo-dropped): `{principalTypes: [], resourceTypes: [E], context: {x: Long}}`
+is printed as `action "a";` and comes back with `resourceTypes: []` and the empty context — `normAction` is NOT the
+entity-or-common form here, the declaration is genuinely changed by fmt.rs -/
+theorem appliesTo_half_empty_lost :
+    let a : ActionJ := ⟨none, some ⟨[], [⟨[], "E"⟩], .record (.cons "x" true .long .nil)⟩⟩
+    printActionJ "a" a = [.id "action", .str "a", .other ";"] ∧
+    (normAction a).appliesTo.map (·.resources) = some [] ∧
+    parseActionDecl (printActionJ "a" a) = parseActionDecl (printActionJ "a" ⟨none, none⟩) := by
+  refine ⟨by decide, by decide, by rfl⟩
+
+/-- `CtxOK` is needed: fmt.rs prints any context type, the grammar reads only a record or a name after `context:` -/
+theorem ctxOK_needed :
+    parseActionDecl (printActionJ "a" ⟨none, some ⟨[⟨[], "E"⟩], [⟨[], "E"⟩], .set .long⟩⟩) = none := by rfl
+
+/-- the forms only the Cedar syntax has: bare names, several names, a single parent without brackets, an unqualified parent,
+principal/resource/context in any order with a trailing comma, `context: Path`, `attributes {}`; and what to_json_schema.rs refuses -/
+theorem action_parser_accepts_more :
+    parseActionDecl [.id "action", .id "a", .comma, .str "b c", .id "in", .str "g", .id "appliesTo", .lb, .id "context", .colon, .id "C",
+        .comma, .id "resource", .colon, .id "R", .comma, .id "principal", .colon, .other "[", .id "P", .other "]", .comma, .rb,
+        .id "attributes", .lb, .rb, .other ";"] =
+      some [("a", ⟨some [⟨none, "g"⟩], some ⟨[⟨[], "P"⟩], [⟨[], "R"⟩], .commonRef ⟨[], "C"⟩⟩⟩),
+            ("b c", ⟨some [⟨none, "g"⟩], some ⟨[⟨[], "P"⟩], [⟨[], "R"⟩], .commonRef ⟨[], "C"⟩⟩⟩)] ∧
+    -- empty list, missing resource, duplicate principal, empty `in []`
+    parseActionDecl [.id "action", .id "a", .id "appliesTo", .lb, .id "principal", .colon, .other "[", .other "]", .comma,
+        .id "resource", .colon, .id "R", .rb, .other ";"] = none ∧
+    parseActionDecl [.id "action", .id "a", .id "appliesTo", .lb, .id "principal", .colon, .id "P", .rb, .other ";"] = none ∧
+    parseActionDecl [.id "action", .id "a", .id "appliesTo", .lb, .id "principal", .colon, .id "P", .comma, .id "principal", .colon,
+        .id "P", .comma, .id "resource", .colon, .id "R", .rb, .other ";"] = none ∧
+    parseActionDecl [.id "action", .id "a", .id "in", .other "[", .other "]", .other ";"] = none ∧
+    parseActionDecl [.id "action", .id "a", .id "appliesTo", .lb, .rb, .other ";"] = none := by
+  refine ⟨by rfl, by rfl, by rfl, by rfl, by rfl, by rfl⟩
+
+/-- WHOLE FRAGMENT: a JSON fragment (empty namespace + named namespaces, each with common types, entity types of both kinds, actions)
+→ printed by fmt.rs → parsed by the grammar → converted by to_json_schema.rs = `normFragment` of the fragment, where `normFragment`
+(Lemmas/SchemaDecl2.lean) is spelled out: every type leaf an entity-or-common reference (`eocForm`), contexts `normCtx`, parents
+`normActRef`, `memberOf: []` absent, absent / half-empty `appliesTo` the empty `ApplySpec`, an empty-namespace entry without
+declarations absent.  Hypotheses: names are identifiers the grammar accepts (`WFFrag`: no `__cedar`, common-type names not reserved,
+enum lists non-empty, contexts records or names), record attributes in `BTreeMap` order (`SortedFrag`). -/
+theorem fragment_roundtrip (f : FragmentJ) (hw : WFFrag f) (hs : SortedFrag f) :
+    parseFragment (printFragmentJ f) = some (normFragment f) := by
+  simp [parseFragment, parseItems_fragment f hw, toJsonFragment_itemsOf f hw hs]
+
+/-- the namespace-name hypothesis of `WFFrag` is needed: `namespace __cedar { … }` is refused (`convert_namespace`) -/
+theorem namespace_reserved_needed :
+    parseFragment (printFragmentJ ⟨none, [(⟨[], "__cedar"⟩, ⟨[], [("E", .enum ["a"])], []⟩)]⟩) = none := by rfl
+
+/-- two namespaces (the empty one and `NS`), an enum entity, a common type used by an entity, an action with parents and an
+`appliesTo` with a record context, a half-empty `appliesTo` -/
+def demoFragment : FragmentJ :=
+  { empty := some ⟨[("Ctx", .record (.cons "ip" false (.ext "ipaddr") .nil))],
+                   [("Color", .enum ["red", "dark blue"]), ("Doc", .standard ⟨[⟨[], "Doc"⟩], .cons "c" true (.commonRef ⟨[], "Ctx"⟩) .nil, none⟩)],
+                   [("half", ⟨some [], some ⟨[], [⟨[], "Doc"⟩], .record .nil⟩⟩)]⟩,
+    named := [(⟨[], "NS"⟩, ⟨[], [("Svc", .standard ⟨[], .nil, some .string⟩), ("User", .standard ⟨[], .nil, none⟩)],
+                            [("all", ⟨none, none⟩), ("view doc", demoAction)]⟩)] }
+
+theorem demoFragment_ok : WFFrag demoFragment ∧ SortedFrag demoFragment := by
+  have hA := demoAction_wf
+  refine ⟨⟨?_, ?_⟩, ?_, ?_⟩
+  · intro d hd
+    simp only [demoFragment, Option.some.injEq] at hd
+    subst hd
+    refine ⟨?_, ?_, ?_⟩
+    · intro x hx
+      simp only [List.mem_cons, List.not_mem_nil, or_false] at hx
+      subst hx
+      refine ⟨by decide, by decide, by decide, ?_⟩
+      simp [WFJ, WFAJ]; decide
+    · intro x hx
+      simp only [List.mem_cons, List.not_mem_nil, or_false] at hx
+      rcases hx with rfl | rfl
+      · exact ⟨by decide, by decide, by simp⟩
+      · refine ⟨by decide, by decide, ?_, ?_, ?_⟩
+        · simp [QName.comps]; decide
+        · simp [WFJ, WFAJ, QName.comps]; decide
+        · simp
+    · intro x hx
+      simp only [List.mem_cons, List.not_mem_nil, or_false] at hx
+      subst hx
+      refine ⟨?_, ?_⟩
+      · intro l hl r hr; simp at hl; subst hl; simp at hr
+      · intro s hs'
+        simp only [Option.some.injEq] at hs'
+        subst hs'
+        refine ⟨by simp, ?_, by simp [WFJ, WFAJ], by intro e; simp⟩
+        simp [QName.comps]; decide
+  · intro x hx
+    simp only [demoFragment, List.mem_cons, List.not_mem_nil, or_false] at hx
+    subst hx
+    refine ⟨by simp [QName.comps]; decide, by decide, ?_, ?_, ?_⟩
+    · intro x hx; simp at hx
+    · intro x hx
+      simp only [List.mem_cons, List.not_mem_nil, or_false] at hx
+      rcases hx with rfl | rfl
+      · refine ⟨by decide, by decide, by simp, by simp [WFJ, WFAJ], ?_⟩
+        intro t ht; simp at ht; subst ht; simp [WFJ]
+      · exact ⟨by decide, by decide, by simp, by simp [WFJ, WFAJ], by simp⟩
+    · intro x hx
+      simp only [List.mem_cons, List.not_mem_nil, or_false] at hx
+      rcases hx with rfl | rfl
+      · exact ⟨by simp, by simp⟩
+      · exact hA.1
+  · intro d hd
+    simp only [demoFragment, Option.some.injEq] at hd
+    subst hd
+    refine ⟨?_, ?_, ?_⟩
+    · intro x hx
+      simp only [List.mem_cons, List.not_mem_nil, or_false] at hx
+      subst hx
+      simp [SortedT, SortedA, keysJ]
+    · intro x hx
+      simp only [List.mem_cons, List.not_mem_nil, or_false] at hx
+      rcases hx with rfl | rfl
+      · trivial
+      · exact ⟨by simp [SortedT, SortedA, keysJ], by simp⟩
+    · intro x hx s hs'
+      simp only [List.mem_cons, List.not_mem_nil, or_false] at hx
+      subst hx
+      simp only [Option.some.injEq] at hs'
+      subst hs'
+      simp [SortedT, SortedA]
+  · intro x hx
+    simp only [demoFragment, List.mem_cons, List.not_mem_nil, or_false] at hx
+    subst hx
+    refine ⟨by intro x hx; simp at hx, ?_, ?_⟩
+    · intro x hx
+      simp only [List.mem_cons, List.not_mem_nil, or_false] at hx
+      rcases hx with rfl | rfl
+      · refine ⟨by simp [SortedT, SortedA], ?_⟩
+        intro t ht; simp at ht; subst ht; simp [SortedT]
+      · exact ⟨by simp [SortedT, SortedA], by simp⟩
+    · intro x hx s hs'
+      simp only [List.mem_cons, List.not_mem_nil, or_false] at hx
+      rcases hx with rfl | rfl
+      · simp at hs'
+      · exact hA.2 s hs'
+
+example : parseFragment (printFragmentJ demoFragment) = some (normFragment demoFragment) :=
+  fragment_roundtrip _ demoFragment_ok.1 demoFragment_ok.2
+
+/-- … and that normal form, computed: the common-type reference of `Doc.c` is now entity-or-common, the half-empty `appliesTo` of
+`half` is empty, `all` got the empty `ApplySpec`, the bare parent of `view doc` its `Action` type -/
+example : (normFragment demoFragment).empty.map (fun d => d.actions.map fun x => (x.1, x.2.memberOf, x.2.appliesTo.map (·.resources)))
+      = some [("half", none, some [])] ∧
+    (normFragment demoFragment).named.map (fun x => x.2.actions.map fun y => (y.1, y.2.memberOf)) =
+      [[("all", none), ("view doc", some [⟨some ⟨[], "Action"⟩, "all"⟩, ⟨some ⟨["NS"], "Action"⟩, "adm in"⟩])]] := by
+  refine ⟨by decide, by decide⟩
 
 end Cedar.C09
